@@ -33,6 +33,7 @@ structure DrvState where
   gw : GwDrv := {}
   rt : Model.Router.St := Model.Router.init
   pipe : PipeDrv := {}
+  rows : Model.Row.Table := []
 
 def handle (st : DrvState) (line : String) : DrvState × String :=
   match (line.trimAscii.toString.splitOn " ").filter (· ≠ "") with
@@ -58,6 +59,9 @@ def handle (st : DrvState) (line : String) : DrvState × String :=
       let (p, out) := handlePipe st.pipe (op :: rest)
       ({ st with pipe := p }, out)
     else if op.startsWith "txt." then (st, handleTxt (op :: rest))
+    else if op.startsWith "row." then
+      let (t, out) := handleRow st.rows (op :: rest)
+      ({ st with rows := t }, out)
     else if op.startsWith "rt." then
       let (r, out) := handleRt st.rt (op :: rest)
       ({ st with rt := r }, out)
